@@ -279,3 +279,56 @@ def by_group():
     for s in SPECS:
         g.setdefault(s["group"], []).append(s)
     return g
+
+
+# ---- sdk/component.py, schedule.py : the status automaton of a component and the driver's status checks (C03) -----
+ST = {"CREATED": 0, "INITIALIZED": 1, "CONNECTING": 2, "CONNECTING_IDLE": 3, "CONNECTED": 4, "VALIDATED": 5,
+      "UPDATED": 6, "FINISHED": 7, "FINALIZED": 8, "FAILED": 9}
+ST_CONSTS = {"ComponentStatus." + k: ("(%d : Int)" % v, "Int") for k, v in ST.items()}
+# a hook (`_initialize`, `_connect`, `_validate`, `_update`, `_finalize`) is user code: it leaves the status alone or
+# sets it (Py.hook (some s)); the theorems quantify over what it does
+def _hook(name):
+    return {"self." + name: {"lean": "Py.hook hook", "args": ["self.status"], "argtypes": ["Int"], "stmt": True, "updates": ["status"]}}
+LC_COMMON = dict(path="sdk/component.py", group="Lifecycle", fields={"status": "Int"}, extra_params={"hook": "Opt[Int]"},
+                 consts=ST_CONSTS, props=["C03"], ret="Unit")
+SPECS += [
+    dict(lean="Component_initialize", qual="Component.initialize", calls=_hook("_initialize"),
+         drop_assign=["self.inputs.frozen", "self.outputs.frozen"], **LC_COMMON),
+    dict(lean="Component_connect", qual="Component.connect", calls=_hook("_connect"), ignore_params=["start_time"],
+         assume_false=["start_time is not None and (not isinstance(start_time, datetime))"],
+         drop_loops=["for (_, inp) in self.inputs.items()"], **LC_COMMON),
+    dict(lean="Component_validate", qual="Component.validate", calls=_hook("_validate"), **LC_COMMON),
+    dict(lean="Component_update", qual="Component.update", calls=_hook("_update"),
+         conds={"isinstance(self, ITimeComponent)": "True"}, **LC_COMMON),
+    dict(lean="Component_finalize", qual="Component.finalize", calls=_hook("_finalize"),
+         drop_loops=["for (_n, out) in self.outputs.items()"], **LC_COMMON),
+    dict(lean="check_status", path="schedule.py", qual="Composition._check_status", group="Lifecycle",
+         params={"desired_list": "List[Int]"}, extra_params={"status": "Int"}, ignore_params=["comp"],
+         consts={"comp.status": ("status", "Int")}, ret="Unit", props=["C03"]),
+]
+
+# the driver's call sites: the status check before / after each life-cycle call, with the literal status lists
+_CHK = {"self._check_status": {"lean": "check_status", "args": [1, "self.status"], "argtypes": ["List[Int]", "Int"], "stmt": True}}
+def _lc(meth):
+    return {"comp." + meth: {"lean": "Component_" + meth, "args": ["self.status", "hook"], "argtypes": ["Int", "Opt[Int]"],
+                             "stmt": True, "updates": ["status"]}}
+LC_SITE = dict(path="schedule.py", group="Lifecycle", fields={"status": "Int"}, params={}, ret="Unit", props=["C03"],
+               consts=dict(ST_CONSTS, **{"comp.status": ("self_status", "Int")}))
+SPECS += [
+    dict(lean="site_created", qual="Composition.__init__", calls=_CHK,
+         slice={"start": "self._check_status(comp, [ComponentStatus.CREATED])", "end": "self._check_status(comp, [ComponentStatus.CREATED])"},
+         **LC_SITE),
+    dict(lean="site_initialize", qual="Composition.__init__", calls=dict(_CHK, **_lc("initialize")), extra_params={"hook": "Opt[Int]"},
+         slice={"start": "comp.initialize()", "end": "self._check_status(comp, [ComponentStatus.INITIALIZED])"},
+         drop_calls=["comp.inputs.set_logger", "comp.outputs.set_logger"], drop_loops=["for (_, out) in comp.outputs.items()"],
+         **LC_SITE),
+    dict(lean="site_connect", qual="Composition._connect_components", calls=dict(_CHK, **_lc("connect")), extra_params={"hook": "Opt[Int]"},
+         slice={"start": "comp.connect(time)", "end": "self._check_status("}, **LC_SITE),
+    dict(lean="site_validate", qual="Composition.connect", calls=dict(_CHK, **_lc("validate")), extra_params={"hook": "Opt[Int]"},
+         slice={"start": "comp.validate()", "end": "self._check_status(comp, [ComponentStatus.VALIDATED])"}, **LC_SITE),
+    dict(lean="site_updated", qual="Composition.run", calls=_CHK,
+         slice={"start": "self._check_status(updated", "end": "self._check_status(updated"}, **LC_SITE),
+    dict(lean="site_finalize", qual="Composition._finalize_components", calls=dict(_CHK, **_lc("finalize")), extra_params={"hook": "Opt[Int]"},
+         slice={"start": "self._check_status(", "end": "self._check_status(comp, [ComponentStatus.FINALIZED])"},
+         conds={"isinstance(comp, ITimeComponent)": "True"}, **LC_SITE),
+]
